@@ -802,6 +802,9 @@ func (e *specEnv) call(x *ast.CallExpr, sg *SGo) Val {
 		if _, ok := v.Ty.Underlying().(*types.Slice); ok {
 			ref = app("s.arr", v.T)
 		}
+		if _, ok := v.Ty.Underlying().(*types.Interface); ok {
+			ref = refOf(v) // the dynamic value (a pointer)
+		}
 		return Val{T: app(">=", ref, e.oldA), Ty: tBool}
 	case "alive": // alive(x): the reference has been allocated by now (it is below the current allocation counter)
 		v := arg(0)
